@@ -48,6 +48,15 @@ InstallVerdict(acode, akeyLen, pcode, pkeyLen) ==
 (* utility functions get_master_key(alg, password), get_localized_key(alg, master, engine) *)
 (* the algorithm argument is the code of the digest; key-type bits, if present, are ignored; with the
    "no authentication" code there is nothing to derive (the statement is silent: refused or an empty key) *)
+(* Python layer (src/gufo/snmp/user.py): USM master and localized keys have the length of the AUTHENTICATION digest - the privacy
+   key too; the cipher takes its 16 octets after localisation (RFC 3414 A.2, 8.1.1.1; RFC 3826 3.1.2.1).  Key material of exactly
+   that length, and every password, must reach the socket unchanged.  (What the layer does with material of another length -
+   it cuts / pads with zero octets - is a convenience the property does not state: left free.) *)
+UserKeyOutOK(kt, key, out, authAlg) ==
+  IF kt = 0 THEN out = key
+  ELSE IF Len(key) = KeySize(authAlg) THEN out = key
+  ELSE TRUE
+
 MasterVerdict(alg, pwLen) == IF AlgOf(alg) \notin {0, 1, 2} THEN "refuse"
                              ELSE IF AlgOf(alg) = 0 THEN "either"
                              ELSE IF pwLen = 0 THEN "refuse" ELSE "accept"
